@@ -90,6 +90,25 @@ func (x *Exec) bodyEnv(fr *Frame, n *Node, st *State, at *ssa.BasicBlock) *Env {
 					}
 				}
 			}
+			if name == "iterpos" {
+				// byte position of a range-over-string loop
+				h := at
+				if _, ok := fr.loops.ordinal[h]; !ok {
+					h = fr.loops.innermost(at)
+				}
+				if h != nil {
+					for _, in := range h.Instrs {
+						if nx, ok := in.(*ssa.Next); ok && nx.IsString {
+							if r, ok := nx.Iter.(*ssa.Range); ok {
+								t := x.get(state, x.iterName(fr, r))
+								t.T = types.Typ[types.Int]
+								return t, true, nil
+							}
+						}
+					}
+				}
+				return Term{}, false, fmt.Errorf("iterpos used outside a range-over-string loop")
+			}
 			if name == "$visited" || name == "iter" || (strings.HasPrefix(name, "iter") && isDigits(name[4:])) {
 				// the loop's own iteration state (iter), or that of the loop with ordinal N (iterN)
 				h := at
@@ -118,6 +137,13 @@ func (x *Exec) bodyEnv(fr *Frame, n *Node, st *State, at *ssa.BasicBlock) *Env {
 						if a, ok := s.Addr.(*ssa.Alloc); ok && a.Comment == "rangeindex" {
 							t := x.get(state, x.cellVar(fr, a))
 							return Term{S: app("+", t.S, "1"), Sort: SInt, T: types.Typ[types.Int]}, true, nil
+						}
+					} else if u, ok := in.(*ssa.UnOp); ok {
+						// range-over-int loops are in do-while form: the header is the body and loads the counter first
+						if a, ok := u.X.(*ssa.Alloc); ok && a.Comment == "rangeint.iter" {
+							t := x.get(state, x.cellVar(fr, a))
+							t.T = types.Typ[types.Int]
+							return t, true, nil
 						}
 					}
 				}
@@ -488,7 +514,7 @@ func (x *Exec) applyContractWith(c *callCtx, fc *FuncContract, sig *types.Signat
 			x.contractError(c.fr, r, fmt.Errorf("at call from %s: %v", c.fr.fn.Name(), err))
 			continue
 		}
-		if top != nil && top.contract != nil && c.fr.depth == 0 {
+		if top != nil && top.contract != nil && c.fr.depth == 0 && !fc.AssumeRequires {
 			ob := &Obligation{Name: fmt.Sprintf("%s#call:%s#requires%d@%d", top.contract.Key(), fc.Key(), i+1, seq), Kind: "requires", Fn: top.contract.Key(),
 				Props: unionProps(top.contract.Props, clauseProps(fc, r)), Clause: r.Src, Pos: x.prog.pos(c.instr.Pos())}
 			if c.fr.depth > 0 {
